@@ -33,6 +33,9 @@ type mutexState struct {
 	writer  *Goroutine
 	locked  bool
 	readers int
+	// goroutines blocked in RWMutex.Lock: as in sync.RWMutex, a pending
+	// writer keeps new readers out (so a recursive RLock can deadlock)
+	waitingW map[*Goroutine]bool
 }
 
 type wgState struct{ n int64 }
@@ -167,9 +170,14 @@ func init() {
 		"(*sync.RWMutex).Lock": func(ex *Exec, g *Goroutine, cs *callSite, args []Value) Value {
 			m := ex.mutex(args[0])
 			if m.locked || m.readers > 0 {
+				if m.waitingW == nil {
+					m.waitingW = map[*Goroutine]bool{}
+				}
+				m.waitingW[g] = true
 				ex.blockUntil(g, "RWMutex.Lock", func() bool { return !m.locked && m.readers == 0 })
 				return nil
 			}
+			delete(m.waitingW, g)
 			m.locked, m.writer = true, g
 			ex.lockAcquired(g, args[0])
 			return nil
@@ -185,8 +193,8 @@ func init() {
 		},
 		"(*sync.RWMutex).RLock": func(ex *Exec, g *Goroutine, cs *callSite, args []Value) Value {
 			m := ex.mutex(args[0])
-			if m.locked {
-				ex.blockUntil(g, "RWMutex.RLock", func() bool { return !m.locked })
+			if m.locked || len(m.waitingW) > 0 {
+				ex.blockUntil(g, "RWMutex.RLock", func() bool { return !m.locked && len(m.waitingW) == 0 })
 				return nil
 			}
 			m.readers++
